@@ -234,9 +234,16 @@ def proc_inc(ctx, n, base, chain):
     if '#' in href: ctx.causes.append('href-fragment'); return []
     target = ctx.res(href, ibase)
     if '../' in href:
+        # every directory the unnormalised concatenation base-directory + href walks through (the implementation under test
+        # leaves dot segments to the file system, finding C20-D8; the property module creates these directories and counts)
         ctx.labels.add('href-dotdot')
-        bd = path_of(ibase[:ibase.rfind('/') + 1])
-        if bd: ctx.dotdot_bases.add(bd)
+        bd = path_of(ibase[:ibase.rfind('/') + 1]) or ''
+        cur = []
+        for seg in (bd + href).split('/')[:-1]:
+            if seg == '..':
+                if cur: cur.pop()
+            elif seg not in ('', '.'): cur.append(seg)
+            if cur: ctx.dotdot_bases.add('/'.join(cur) + '/')
     ctx.fetches += 1
     if ctx.fetches > ctx.max_fetch: raise TooBig()
     path = path_of(target)
